@@ -32,6 +32,13 @@ def run_table(tier, seed):
                             sc = G.scalings_of(spec, (0, 1))[k % 2]
                             k += 1
                             out.append({"t": "run", "spec": spec, "cfg": c, "sc": sc, "fault": fault})
+    # single precision: every controller (exact control must still meet the Newton tolerance up to float32 rounding)
+    for spec in specs[:4]:
+        for control in G.R.CONTROLS:
+            for newton in ("Simplified", "Full"):
+                for ss in ("Symmetric", "Standard"):
+                    out.append({"t": "run", "spec": spec, "cfg": {"control": control, "newton": newton, "step_solver": ss, "iteration_limit": 60,
+                                                                 "params": {"lamb_max": 1e12, "precision": "Single"}}, "sc": None, "fault": None})
     # long runs: thousands of trials per controller (tiny initial steps)
     for control in G.R.CONTROLS:
         out.append({"t": "run", "spec": specs[0], "cfg": {"control": control, "newton": "Simplified", "step_solver": "Symmetric", "iteration_limit": 4000,
